@@ -239,6 +239,15 @@ impl<F: Float, L: Label + std::fmt::Debug> TreeNode<F, L> {
             let mut weight_on_right_side = total_weight;
             let mut weight_on_left_side = 0.0;
 
+            // Number of observations with a positive weight on each side. A split needs at
+            // least one of them on both sides (the impurity of a side without weight is
+            // undefined), whatever `min_weight_leaf` is. The running weights above are subject
+            // to rounding and cannot tell an empty side from a nearly empty one.
+            let mut weighted_on_right_side = (0..mask.mask.len())
+                .filter(|&idx| mask.mask[idx] && data.weight_for(idx) > 0.0)
+                .count();
+            let mut weighted_on_left_side = 0;
+
             // We start by putting all available observations in the right subtree
             // and then move the (sorted by `feature_idx`) observations one by one to
             // the left subtree and evaluate the quality of the resulting split. At each
@@ -271,6 +280,15 @@ impl<F: Float, L: Label + std::fmt::Debug> TreeNode<F, L> {
                 // right side by the weight of this sample
                 *left_class_freq.entry(sample_class.clone()).or_insert(0.0) += sample_weight;
                 weight_on_left_side += sample_weight;
+                if sample_weight > 0.0 {
+                    weighted_on_right_side -= 1;
+                    weighted_on_left_side += 1;
+                }
+
+                // Nothing is left for the right subtree: no further split on this feature
+                if weighted_on_right_side == 0 {
+                    break;
+                }
 
                 // Continue if the next value is equal, so that equal values end up in the same subtree
                 if (sorted_index.sorted_values[i].1 - sorted_index.sorted_values[i + 1].1).abs()
@@ -281,7 +299,8 @@ impl<F: Float, L: Label + std::fmt::Debug> TreeNode<F, L> {
 
                 // If the split would result in too few samples in a leaf
                 // then skip computing the quality
-                if weight_on_right_side < hyperparameters.min_weight_leaf()
+                if weighted_on_left_side == 0
+                    || weight_on_right_side < hyperparameters.min_weight_leaf()
                     || weight_on_left_side < hyperparameters.min_weight_leaf()
                 {
                     continue;
